@@ -457,58 +457,123 @@ class SimTime(object):
         return getattr(self._real, n)
 
 
+class SimFuture(object):
+    def __init__(self, sched):
+        self.s = sched
+        self._done = False
+        self._res = None
+        self._exc = None
+
+    def done(self):
+        self.s.point("future-done?")
+        return self._done
+
+    def result(self, timeout=None):
+        self.s.point("future-result")
+        while not self._done:
+            self.s.block(("future", id(self)))
+        if self._exc is not None:
+            raise self._exc
+        return self._res
+
+    def exception(self, timeout=None):
+        self.s.point("future-exception")
+        while not self._done:
+            self.s.block(("future", id(self)))
+        return self._exc
+
+    def _set(self, res, exc):
+        self._res, self._exc, self._done = res, exc, True
+        self.s.wake(lambda t: t.blocked_on == ("future", id(self)) or t.blocked_on == "any-future")
+
+
+def sim_as_completed(fs, timeout=None):
+    """concurrent.futures.as_completed for SimFutures: yields them in the order the schedule completes them"""
+    fs = list(fs)
+    if not fs:
+        return
+    s = fs[0].s
+    pending = list(fs)
+    while pending:
+        s.point("as_completed")
+        ready = [f for f in pending if f._done]
+        if not ready:
+            s.block("any-future")
+            continue
+        for f in ready:
+            pending.remove(f)
+            yield f
+
+
+def sim_wait(fs, timeout=None, return_when="ALL_COMPLETED"):
+    fs = list(fs)
+    for f in fs:
+        f.exception()
+    return set(fs), set()
+
+
 class SimExecutor(object):
-    """concurrent.futures.ThreadPoolExecutor for the code under test: max_workers simulated worker threads pull jobs
-    in submission order; map() returns results in submission order (as the real one does)"""
+    """concurrent.futures.ThreadPoolExecutor for the code under test: up to max_workers simulated worker threads pull
+    submitted jobs in submission order; map() returns results in submission order (as the real one does)"""
 
     def __init__(self, sched, max_workers=None):
         self.s = sched
         self.n = max_workers or 4
+        self.jobs = []          # (future, fn, args, kwargs), FIFO
+        self.workers = []
+        self.closed = False
+        self.njobs = 0
 
     def __enter__(self):
         return self
 
     def __exit__(self, *a):
+        self.shutdown(wait=True)
         return False
 
-    def map(self, fn, *iterables):
+    def _worker(self):
         s = self.s
-        jobs = list(zip(*iterables))
-        results = [None] * len(jobs)
-        done = [False] * len(jobs)
-        errors = [None] * len(jobs)
-        nxt = [0]
-        me = s.cur
-
-        def worker():
-            while True:
-                s.point("take-job")
-                if nxt[0] >= len(jobs):
+        while True:
+            s.point("take-job")
+            while not self.jobs:
+                if self.closed:
                     return
-                k = nxt[0]
-                nxt[0] += 1
-                s.log("job-start", s.cur.name, k)
-                try:
-                    results[k] = fn(*jobs[k])
-                except Exception as e:  # noqa
-                    errors[k] = e
-                done[k] = True
-                s.log("job-done", s.cur.name, k)
-                s.wake(lambda t: t.blocked_on == ("result", id(results)))
+                s.block(("pool-idle", id(self)))
+            fut, fn, args, kwargs, k = self.jobs.pop(0)
+            s.log("job-start", s.cur.name, k)
+            try:
+                res, exc = fn(*args, **kwargs), None
+            except SimKilled:
+                raise
+            except Exception as e:  # noqa
+                res, exc = None, e
+            s.log("job-done", s.cur.name, k)
+            fut._set(res, exc)
 
-        ws = [s.spawn(worker, "pool-%d" % i) for i in range(min(self.n, max(1, len(jobs))))]
+    def submit(self, fn, *args, **kwargs):
+        s = self.s
+        s.point("submit")
+        if self.closed:
+            raise RuntimeError("cannot schedule new futures after shutdown")
+        fut = SimFuture(s)
+        self.jobs.append((fut, fn, args, kwargs, self.njobs))
+        self.njobs += 1
+        if len(self.workers) < self.n:
+            self.workers.append(s.spawn(self._worker, "pool-%d" % len(self.workers)))
+        s.wake(lambda t: t.blocked_on == ("pool-idle", id(self)))
+        return fut
+
+    def map(self, fn, *iterables, **kw):
+        futs = [self.submit(fn, *args) for args in zip(*iterables)]
 
         def gen():
-            for k in range(len(jobs)):
-                s.point("result")
-                while not done[k]:
-                    s.block(("result", id(results)))
-                if errors[k] is not None:
-                    raise errors[k]
-                yield results[k]
-            for w in ws:
-                s.join(w)
+            for f in futs:
+                yield f.result()
         return gen()
 
-    def shutdown(self, wait=True):
-        pass
+    def shutdown(self, wait=True, **kw):
+        self.closed = True
+        self.s.wake(lambda t: t.blocked_on == ("pool-idle", id(self)))
+        if wait:
+            for w in self.workers:
+                self.s.join(w)
